@@ -172,22 +172,41 @@ def run_one(rac, hist):
             pass
     w.m.unfreeze_tree()
     # ... then, unfrozen: definitions removed by plain values, the same inputs assigned again, new definitions
-    follow = [("val", loc, 9.5) for loc in sorted(orc.defs)[:2]] + [("val", loc, -1.25 - i) for i, loc in enumerate(free[:3])]
+    #     and a SECOND frozen period (only on the manager under test) in which the same inputs are assigned once more
+    follow = [("val", loc, 9.5) for loc in sorted(orc.defs)[:2]] + [("freeze",)] + [("val", loc, -1.25 - i) for i, loc in enumerate(free[:3])] + [("unfreeze",)]
+    follow += [("val", loc, 0.75 + i) for i, loc in enumerate(free[:3])]
     follow += [("expr", ("c",), "sum", (("a",), ("b",))), ("val", ("a",), -3.5), ("unreg", ("c",)), ("val", ("b",), 8.0)]
     done = []
 
     def twin_script():
-        tail = lambda ops: G.history_script(ops).split("r = m.ref(d, 'd')\n")[1]
+        def tail(ops):
+            out = ""
+            for o in ops:
+                if o[0] == "freeze":
+                    out += "if frozen_run: m.freeze_tree()\n"
+                elif o[0] == "unfreeze":
+                    out += "if frozen_run: m.unfreeze_tree()\n"
+                else:
+                    out += G.history_script([o]).split("r = m.ref(d, 'd')\n")[1]
+            return out
         return (SNAP_SRC + f"SRC_HIST = {G.history_script(hist)!r}\nSRC_DURING = {tail([o for o in during if o in applied])!r}\n"
                 f"SRC_FOLLOW = {tail(done)!r}\n"
-                "def run(frozen):\n    env = {}\n    exec(SRC_HIST, env)\n    m, r = env['m'], env['r']\n    if frozen:\n        m.freeze_tree()\n"
+                "def run(frozen):\n    env = {'frozen_run': frozen}\n    exec(SRC_HIST, env)\n    m, r = env['m'], env['r']\n    if frozen:\n        m.freeze_tree()\n"
                 "        for att in (lambda: r.__setitem__('zz_new', r['a'] * 2), lambda: m.unregister(r['b']), lambda: m.refresh()):\n"
                 "            try:\n                att()\n            except Exception:\n                pass\n"
-                "    exec(SRC_DURING, env)\n    if frozen:\n        m.unfreeze_tree()\n    exec(SRC_FOLLOW, env)\n    return snap(m, env['d'])\n"
+                "    exec(SRC_DURING, env)\n    if frozen:\n        m.unfreeze_tree()\n    exec(SRC_FOLLOW, env)\n    if m._tree_frozen:\n        m.unfreeze_tree()\n    return snap(m, env['d'])\n"
                 "a, b = run(True), run(False)\nassert a == b, [(k, a[k], b[k]) for k in a if a[k] != b[k]]\n")
+    refrozen = False
     for op in follow:
+        if op[0] in ("freeze", "unfreeze"):
+            done.append(op)
+            (w.m.freeze_tree if op[0] == "freeze" else w.m.unfreeze_tree)()
+            refrozen = op[0] == "freeze"
+            continue
         if not G.legal(fo, op):
             continue
+        if refrozen and op[1] in fo.defs:
+            continue            # (only plain-value locations are assigned while frozen)
         fo.apply(op)
         done.append(op)
         try:
@@ -198,7 +217,10 @@ def run_one(rac, hist):
                      script(hist, "m.freeze_tree(); m.unfreeze_tree()\n" + G.history_script([op]).split("r = m.ref(d, 'd')\n")[1]),
                      "Manager.unfreeze_tree")
             break
-        if snap(w.m, w.data) != snap(twin.m, twin.data):
+        sa, sb = snap(w.m, w.data), snap(twin.m, twin.data)
+        if refrozen:
+            sa.pop("frozen"), sb.pop("frozen")
+        if sa != sb:
             rac.fail(key, f"C17 {key}: after plain assignments while frozen ({'; '.join(G.opstr(o) for o in during)}) and unfreeze, "
                      f"{G.opstr(op)} behaves differently from a never-frozen twin", twin_script(), "Manager.unfreeze_tree")
             break
